@@ -502,17 +502,26 @@ theorem validateUnbond_int {v : VS} {d amt shares : Nat} (hn : NS v) (h : v.vali
         · exact ⟨amt, Nat.min_eq_left hm⟩
         · exact ⟨k, by rw [Nat.min_eq_right (by omega)]; exact hk⟩
 
-theorem status_NS {v : VS} (b j : Bool) (u : Nat) (h : NS v) : NS { v with bonded := b, ubHeight := u, jailed := j } :=
+theorem status_NS {v : VS} (b ub j : Bool) (u : Nat) (h : NS v) :
+    NS { v with bonded := b, unbonded := ub, ubHeight := u, jailed := j } :=
   ⟨h.rate, h.nosl, h.int, h.stake⟩
 
 theorem endBlock_NS {v : VS} (h : Nat) (hn : NS v) : NS (v.endBlock h) := by
   unfold VS.endBlock
   dsimp only
   split
-  · exact status_NS false v.jailed h hn
+  · exact status_NS false v.unbonded v.jailed h hn
   · split
-    · exact status_NS true v.jailed v.ubHeight hn
+    · exact status_NS true false v.jailed v.ubHeight hn
     · exact hn
+
+theorem matureStep_NS {v : VS} (h : Nat) (hn : NS v) : NS (if v.bonded then v.endBlock h else (v.endBlock h).matureVal) := by
+  split
+  · exact endBlock_NS h hn
+  · unfold VS.matureVal
+    split
+    · exact endBlock_NS h hn
+    · exact status_NS _ true _ _ (endBlock_NS h hn)
 
 theorem alloc_NS {v : VS} (amt : Nat) (hn : NS v) : NS (v.alloc amt) := by
   obtain ⟨_, _, _, a4, a5, a6⟩ := alloc_fields v amt
@@ -680,6 +689,10 @@ theorem exec_NS {c : Cfg} (hg : good c = true) {s s' : State} {o : Op} {w : Nat}
     simp only [State.exec] at h
     cases h
     exact endBlock_NS _ hn
+  | mature =>
+    simp only [State.exec] at h
+    cases h
+    exact matureStep_NS _ hn
   | jail v =>
     simp only [State.exec] at h
     split at h
@@ -687,7 +700,7 @@ theorem exec_NS {c : Cfg} (hg : good c = true) {s s' : State} {o : Op} {w : Nat}
     · cases h
       show NS (setAt s.vs v { s.vs v with jailed := true } w)
       by_cases hwv : w = v
-      · subst hwv; rw [setAt_same]; exact status_NS _ _ _ hn
+      · subst hwv; rw [setAt_same]; exact status_NS _ _ _ _ hn
       · rw [setAt_ne _ _ hwv]; exact hn
   | unjail v =>
     simp only [State.exec] at h
@@ -696,7 +709,7 @@ theorem exec_NS {c : Cfg} (hg : good c = true) {s s' : State} {o : Op} {w : Nat}
     · cases h
       show NS (setAt s.vs v { s.vs v with jailed := false } w)
       by_cases hwv : w = v
-      · subst hwv; rw [setAt_same]; exact status_NS _ _ _ hn
+      · subst hwv; rw [setAt_same]; exact status_NS _ _ _ _ hn
       · rw [setAt_ne _ _ hwv]; exact hn
 
 theorem run_NS {c : Cfg} (hg : good c = true) {w : Nat} : ∀ (ops : List Op) (s : State), SInv s → NS (s.vs w) →
